@@ -397,8 +397,46 @@ fn x86_modrm(rng: &mut Rng, amd64: bool) -> Vec<u8> {
     let md = rng.below(4) as u8;
     let rm = rng.below(8) as u8;
     b.push((md << 6) | ((rng.below(8) as u8) << 3) | rm);
+    // SIB and displacement as the addressing form demands, the displacement at its extremes
+    // (minimum / maximum encodable value, -1, 0) half of the time
+    let addr16 = !amd64 && pfx.contains(&0x67);
+    let mut disp = 0usize;
+    if md != 3 {
+        if addr16 {
+            disp = match (md, rm) {
+                (0, 6) | (2, _) => 2,
+                (1, _) => 1,
+                _ => 0,
+            };
+        } else {
+            let mut base5 = false;
+            if rm == 4 {
+                let sib = rng.next() as u8;
+                base5 = sib & 7 == 5;
+                b.push(sib);
+            }
+            disp = match md {
+                0 if rm == 5 || base5 => 4,
+                1 => 1,
+                2 => 4,
+                _ => 0,
+            };
+        }
+    }
+    if disp > 0 {
+        if rng.chance(1, 2) {
+            let v: u32 = match disp {
+                1 => *rng.pick(&[0x80u32, 0x7f, 0xff, 0x00]),
+                2 => *rng.pick(&[0x8000u32, 0x7fff, 0xffff, 0x0000, 0xff80]),
+                _ => *rng.pick(&[0x8000_0000u32, 0x7fff_ffff, 0xffff_ffff, 0, 0xffff_ff80, 0x8000_0001]),
+            };
+            b.extend_from_slice(&v.to_le_bytes()[..disp]);
+        } else {
+            b.extend(rng.bytes(disp));
+        }
+    }
     let tail = rng.usize_below(9);
-    b.extend(rng.bytes(tail));
+    b.extend(rng.corner_bytes(tail.max(1)));
     b
 }
 
@@ -483,7 +521,9 @@ pub fn generate(run_seed: u64, _index: u64) -> Case {
         1 => 0x1000,
         2 => 0x40_0000 + rng.below(64) * align,
         3 => 0x7fff_f000 + rng.below(512) * align,
-        4 => 0xffff_e000 + rng.below(512) * align,
+        4 if rng.chance(1, 2) => 0xffff_e000 + rng.below(512) * align,
+        // the last bytes below 2^32: the image ends at or crosses the line
+        4 => 0xffff_ffc0 + rng.below(64 / align) * align,
         5 if arch.addr_bits() == 64 => 0x7fff_ffff_ffff_0000 + rng.below(512) * align,
         _ => (rng.below(1 << 20) * 64 + rng.below(64)) & !(align - 1),
     };
